@@ -17,7 +17,10 @@ from __future__ import annotations
 import html
 import json
 import math
+import random
 import re
+import struct
+import unicodedata
 from decimal import ROUND_HALF_EVEN
 from decimal import Decimal
 from fractions import Fraction
@@ -165,68 +168,170 @@ def seq_apply(run: Run, name: str, form: str, key: str, left: Any, value: Any = 
 
 
 # --------------------------------------------------------------------------- generators
+#
+# Hypothesis draws 8 bytes (size, generator index, seed); the case itself is built by a private
+# PRNG seeded with that draw (the pattern lv/gen/printer.py uses for layouts).  A case drawn
+# element by element from Hypothesis cost ~2.8 ms against 0.35 ms for checking it (and
+# integers()/one_of() put 20-40 % of the mass on index 0); this way ~0.6 ms and uniform.
+# `size` bounds every length and is the first byte, so the runner's shrinker (bytes -> 0)
+# still walks towards small witnesses.
 
 SMALL = "ab cA,.-é日\U0001f600<>&'\"%+/=\t\n"
-t_small = st.text(alphabet=SMALL, max_size=10)
-t_uni = st.text(max_size=12)
-t_any = st.one_of(t_small, t_small, t_uni)
-t_key = st.one_of(
-    st.sampled_from(["a", "b", "A", "B", "ab", "Ab", "", "z", "é", "10", "9"]),
-    st.text(alphabet="abAB é日", max_size=3),
-)
-
-small_ints = st.integers(-30, 30)
-big_ints = st.one_of(
-    st.integers(-(2**80), 2**80),
-    st.sampled_from([2**53, 2**53 + 1, -(2**53) - 1, 2**63 - 1, 2**63, 2**64 + 1, 10**30 + 7, -(10**25) - 3]),
-)
-ints = st.one_of(small_ints, small_ints, big_ints)
-int_strs = ints.map(str)
-
-
-def _spell(m: int, p: int) -> str:
-    sign = "-" if m < 0 else ""
-    m = abs(m)
-    return f"{sign}{m // 10**p}.{str(m % 10**p).zfill(p)}"
-
-
-dec_spellings = st.builds(_spell, st.integers(-(10**12), 10**12), st.integers(1, 6))
-small_decs = st.builds(_spell, st.integers(-99999, 99999), st.integers(1, 4))
-dec_strs = st.one_of(small_decs, dec_spellings)
-dec_floats = dec_strs.map(float)
-mid_floats = st.floats(min_value=-1e12, max_value=1e12, allow_nan=False, allow_infinity=False)
-wild_floats = st.floats(allow_nan=False, allow_infinity=False)
-floats = st.one_of(dec_floats, dec_floats, mid_floats, wild_floats)
-float_like = st.one_of(dec_floats, dec_floats, dec_strs, mid_floats, wild_floats)
-int_like = st.one_of(ints, ints, int_strs)
-num_any = st.one_of(int_like, float_like)
-
+KEY_POOL = ["a", "b", "A", "B", "ab", "Ab", "", "z", "é", "10", "9"]
 MIXED = [None, False, True, 0, 1, 2, 0.0, 1.5, -3, "", "a", "b", "A", "1", "0"]
-scalar_mixed = st.one_of(st.sampled_from(MIXED), st.sampled_from(MIXED), t_small, ints)
+SPECIAL_INTS = [2**53, 2**53 + 1, -(2**53) - 1, 2**63 - 1, 2**63, 2**64 + 1, 10**30 + 7, -(10**25) - 3]
+VERSIONS = ["v1.2", "v1.10", "1.2.1", "v1.10.0", "v1.1.0", "0001", "12", "107", "x", "beta", "a2b", "10", "9"]
+SEP_ALPHA = ",;# -"
+WORD_ALPHA = "abcAé日\U0001f600<&"
+ENTITIES = ["&amp;", "&lt;", "&gt;", "&#39;", "&quot;", "&", "<", ">", "'", '"', "a", "&amp;amp;", " ", "&nbsp;",
+            "&#x27;", "é"]
+ENDS = ["...", "", "--", ".", ", and so on"]
+ASCII_WS4 = " \t\r\n"
 
 
-@st.composite
-def hashes(draw: Any, values: Any, *, missing: bool = True, max_size: int = 7, min_size: int = 0) -> list[Any]:
-    """Array of hashes over the key pool {k, t, id}: `k` is the tested property (sometimes
-    missing), `id` makes items distinguishable in most arrays, `t` is noise."""
-    rows = draw(st.lists(st.tuples(st.integers(0, 9), values, st.integers(0, 3)), min_size=min_size, max_size=max_size))
-    with_id = draw(st.integers(0, 3)) > 0
-    out = []
-    for i, (r, v, t) in enumerate(rows):
-        item: dict[str, Any] = {}
-        if with_id:
-            item["id"] = i
-        if not (missing and r == 0):
-            item["k"] = v
-        if t == 0:
-            item["t"] = "x"
-        out.append(item)
-    return out
+class G:
+    """Private PRNG with the few combinators the generators need."""
 
+    def __init__(self, seed: int, size: int) -> None:
+        self.r = random.Random(seed)
+        self.size = size
 
-def nested(items: Any) -> Any:
-    """Flat or nested (depth <= 3) arrays."""
-    return st.recursive(st.lists(items, max_size=5), lambda inner: st.lists(st.one_of(items, inner), max_size=4), max_leaves=10)
+    def one(self, seq: Any) -> Any:
+        return seq[self.r.randrange(len(seq))]
+
+    def int(self, lo: int, hi: int) -> int:
+        return self.r.randint(lo, hi)
+
+    def p(self, x: float) -> bool:
+        return self.r.random() < x
+
+    def n(self, cap: int = 8) -> int:
+        return self.r.randint(0, min(cap, self.size))
+
+    def lst(self, fn: Any, cap: int = 8) -> list[Any]:
+        return [fn(self) for _ in range(self.n(cap))]
+
+    def text(self, alphabet: str, cap: int = 10, lo: int = 0) -> str:
+        hi = max(lo, min(cap, self.size + 2))
+        return "".join(self.one(alphabet) for _ in range(self.r.randint(lo, hi)))
+
+    def uchar(self) -> str:
+        r = self.r.random()
+        if r < 0.5:
+            return chr(self.r.randint(0x20, 0x7E))
+        if r < 0.58:
+            return chr(self.r.randint(0x00, 0x1F))
+        if r < 0.75:
+            return chr(self.r.randint(0xA0, 0x24F))
+        if r < 0.9:
+            cp = self.r.randint(0x250, 0xFFFF)
+            return chr(cp) if not 0xD800 <= cp <= 0xDFFF else "�"
+        return chr(self.r.randint(0x10000, 0x10FFFE))
+
+    def utext(self, cap: int = 12, lo: int = 0) -> str:
+        hi = max(lo, min(cap, self.size + 2))
+        return "".join(self.uchar() for _ in range(self.r.randint(lo, hi)))
+
+    def t_small(self) -> str:
+        return self.text(SMALL)
+
+    def t_any(self) -> str:
+        return self.utext() if self.p(0.35) else self.text(SMALL)
+
+    def t_key(self) -> str:
+        return self.one(KEY_POOL) if self.p(0.6) else self.text("abAB é日", 3)
+
+    # numbers
+    def ints(self) -> int:
+        r = self.r.random()
+        if r < 0.5:
+            return self.r.randint(-30, 30)
+        if r < 0.8:
+            return self.r.randint(-(2**80), 2**80)
+        return self.one(SPECIAL_INTS)
+
+    def spell(self, small: bool | None = None) -> str:
+        if small is None:
+            small = self.p(0.5)
+        m, p = (self.r.randint(-99999, 99999), self.r.randint(1, 4)) if small else (
+            self.r.randint(-(10**12), 10**12), self.r.randint(1, 6))
+        sign = "-" if m < 0 else ""
+        m = abs(m)
+        return f"{sign}{m // 10**p}.{str(m % 10**p).zfill(p)}"
+
+    def dec_float(self) -> float:
+        return float(self.spell())
+
+    def mid_float(self) -> float:
+        return self.one((-1, 1)) * 10 ** self.r.uniform(-7, 12)
+
+    def wild_float(self) -> float:
+        while True:
+            f = struct.unpack("<d", self.r.getrandbits(64).to_bytes(8, "little"))[0]
+            if math.isfinite(f):
+                return f
+
+    def float_like(self) -> Any:
+        r = self.r.random()
+        if r < 0.4:
+            return self.dec_float()
+        if r < 0.65:
+            return self.spell()
+        if r < 0.9:
+            return self.mid_float()
+        return self.wild_float()
+
+    def int_like(self) -> Any:
+        return str(self.ints()) if self.p(0.3) else self.ints()
+
+    def num_any(self) -> Any:
+        return self.int_like() if self.p(0.5) else self.float_like()
+
+    # values
+    def mixed(self) -> Any:
+        return self.one(MIXED)
+
+    def scalar(self) -> Any:
+        r = self.r.random()
+        if r < 0.6:
+            return self.one(MIXED)
+        if r < 0.8:
+            return self.t_small()
+        return self.ints()
+
+    def item(self) -> Any:
+        if self.p(0.25):
+            return {"k": self.one(["a", "b", 1, None])}
+        return self.scalar()
+
+    def hashes(self, value: Any, *, missing: bool = True, cap: int = 7) -> list[Any]:
+        """Array of hashes over the key pool {k, t, id}: `k` is the tested property (sometimes
+        missing), `id` makes the items distinguishable in most arrays, `t` is noise."""
+        with_id = self.p(0.75)
+        out = []
+        for i in range(self.n(cap)):
+            it: dict[str, Any] = {}
+            if with_id:
+                it["id"] = i
+            if not (missing and self.p(0.12)):
+                it["k"] = value(self)
+            if self.p(0.25):
+                it["t"] = "x"
+            out.append(it)
+        return out
+
+    def nested(self, item: Any, depth: int = 0) -> list[Any]:
+        """Flat or nested (depth <= 3) arrays."""
+        out = []
+        for _ in range(self.n(5 if depth == 0 else 3)):
+            if depth < 2 and self.p(0.2):
+                out.append(self.nested(item, depth + 1))
+            else:
+                out.append(item(self))
+        return out
+
+    def form2(self) -> str:
+        return self.one(("tmpl", "direct"))
 
 
 def case(law: str, flt: str, form: str, left: Any, args: list[Any]) -> dict[str, Any]:
@@ -235,367 +340,362 @@ def case(law: str, flt: str, form: str, left: Any, args: list[Any]) -> dict[str,
 
 # ---- sequence laws
 
-VERSIONISH = st.one_of(
-    st.sampled_from(["v1.2", "v1.10", "1.2.1", "v1.10.0", "v1.1.0", "0001", "12", "107", "x", "beta", "a2b", "10", "9"]),
-    st.text(alphabet="abv.0123456789", max_size=6),
-)
-sortable_nums = st.one_of(small_ints, big_ints, dec_floats)
+
+def _version(g: G) -> Any:
+    return g.one(VERSIONS) if g.p(0.5) else g.text("abv.0123456789", 6)
 
 
-@st.composite
-def g_sort(draw: Any) -> dict[str, Any]:
-    flt = draw(st.sampled_from(["sort", "sort_natural", "sort_numeric"]))
-    form = draw(st.sampled_from(["nokey", "key", "lambda"]))
-    missing = True
+def _sortable_num(g: G) -> Any:
+    r = g.r.random()
+    return g.int(-30, 30) if r < 0.4 else g.ints() if r < 0.7 else g.dec_float()
+
+
+def _sort_values(g: G, flt: str) -> tuple[Any, bool]:
     if flt == "sort":
-        if draw(st.booleans()):
-            values = t_key
-        else:
-            values, missing = sortable_nums, False
-    elif flt == "sort_natural":
-        values = st.one_of(t_key, t_key, st.integers(0, 1200))
-    else:
-        values = st.one_of(VERSIONISH, VERSIONISH, st.integers(-20, 120), dec_floats)
+        return (G.t_key, True) if g.p(0.5) else (_sortable_num, False)
+    if flt == "sort_natural":
+        return (lambda h: h.t_key() if h.p(0.7) else h.int(0, 1200)), True
+    return (lambda h: _version(h) if h.p(0.6) else h.int(-20, 120) if h.p(0.6) else h.dec_float()), True
+
+
+def g_sort(g: G) -> dict[str, Any]:
+    flt = g.one(("sort", "sort_natural", "sort_numeric"))
+    form = g.one(("nokey", "key", "lambda"))
+    values, missing = _sort_values(g, flt)
     if form == "nokey":
-        left = draw(st.lists(values, max_size=8))
-        return case("sort", flt, form, left, [])
-    return case("sort", flt, form, draw(hashes(values, missing=missing)), ["k"])
+        return case("sort", flt, form, g.lst(values), [])
+    return case("sort", flt, form, g.hashes(values, missing=missing), ["k"])
 
 
-any_item = st.one_of(scalar_mixed, scalar_mixed, st.fixed_dictionaries({"k": st.sampled_from(["a", "b", 1, None])}))
+def g_reverse(g: G) -> dict[str, Any]:
+    if g.p(0.1):
+        return case("reverse", "reverse", g.form2(), g.t_small(), [])
+    return case("reverse", "reverse", g.form2(), g.lst(G.item), [])
 
 
-@st.composite
-def g_reverse(draw: Any) -> dict[str, Any]:
-    form = draw(st.sampled_from(["tmpl", "direct"]))
-    if draw(st.integers(0, 9)) == 0:
-        return case("reverse", "reverse", form, draw(t_small), [])
-    return case("reverse", "reverse", form, draw(st.lists(any_item, max_size=8)), [])
+def _dupy(g: G) -> Any:
+    r = g.r.random()
+    if r < 0.35:
+        return g.one(MIXED)
+    if r < 0.6:
+        return g.one(["a", "b", 1, 2, None])
+    if r < 0.8:
+        return g.int(0, 3)
+    return {"k": g.one(["a", "b", 1])}
 
 
-DUPY = st.one_of(st.sampled_from(MIXED), st.sampled_from(["a", "b", 1, 2, None]), st.integers(0, 3),
-                 st.fixed_dictionaries({"k": st.sampled_from(["a", "b", 1])}))
-
-
-@st.composite
-def g_uniq(draw: Any) -> dict[str, Any]:
-    form = draw(st.sampled_from(["nokey", "key", "lambda"]))
+def g_uniq(g: G) -> dict[str, Any]:
+    form = g.one(("nokey", "key", "lambda"))
     if form == "nokey":
-        return case("uniq", "uniq", form, draw(st.lists(DUPY, max_size=8)), [])
-    return case("uniq", "uniq", form, draw(hashes(st.sampled_from(MIXED))), ["k"])
+        return case("uniq", "uniq", form, g.lst(_dupy), [])
+    return case("uniq", "uniq", form, g.hashes(G.mixed), ["k"])
 
 
-@st.composite
-def g_compact(draw: Any) -> dict[str, Any]:
-    form = draw(st.sampled_from(["nokey", "key", "lambda"]))
+def g_compact(g: G) -> dict[str, Any]:
+    form = g.one(("nokey", "key", "lambda"))
     if form == "nokey":
-        left = draw(st.lists(st.one_of(st.none(), st.sampled_from(MIXED), any_item), max_size=8))
-        return case("compact", "compact", form, left, [])
-    return case("compact", "compact", form, draw(hashes(st.sampled_from(MIXED))), ["k"])
+        return case("compact", "compact", form, g.lst(lambda h: None if h.p(0.3) else h.item()), [])
+    return case("compact", "compact", form, g.hashes(G.mixed), ["k"])
 
 
-SELECT_FORMS = ["key", "keyval", "lambda", "lambdaeq"]
-select_value = st.one_of(st.sampled_from([False, True, 0, 1, 2, 1.5, "", "a", "b", "A", "1"]), st.sampled_from(MIXED))
+SELECT_VALUES = [False, True, 0, 1, 2, 1.5, "", "a", "b", "A", "1", 0.0, -3, "0", None]
 
 
-@st.composite
-def g_select(draw: Any) -> dict[str, Any]:
-    form = draw(st.sampled_from(SELECT_FORMS))
-    left = draw(hashes(st.sampled_from(MIXED)))
+def g_select(g: G) -> dict[str, Any]:
+    form = g.one(("key", "keyval", "lambda", "lambdaeq"))
     args: list[Any] = ["k"]
     if form in ("keyval", "lambdaeq"):
-        v = draw(select_value)
-        if form == "lambdaeq" and v is None:
-            v = "a"
-        args.append(v)
-    return case(draw(st.sampled_from(["select", "find"])), "where", form, left, args)
+        v = g.one(SELECT_VALUES)
+        args.append("a" if form == "lambdaeq" and v is None else v)
+    return case(g.one(("select", "find")), "where", form, g.hashes(G.mixed), args)
 
 
 AGREE = ["where", "reject", "find", "find_index", "has", "map", "sum", "sort", "sort_natural", "sort_numeric",
          "uniq", "compact"]
 
 
-@st.composite
-def g_agree(draw: Any) -> dict[str, Any]:
-    flt = draw(st.sampled_from(AGREE))
+def _summand(g: G) -> Any:
+    r = g.r.random()
+    if r < 0.35:
+        return g.int(-30, 30)
+    if r < 0.5:
+        return g.ints()
+    if r < 0.65:
+        return g.spell(True)
+    if r < 0.8:
+        return g.dec_float()
+    if r < 0.9:
+        return str(g.ints())
+    return None
+
+
+def g_agree(g: G) -> dict[str, Any]:
+    flt = g.one(AGREE)
     args: list[Any] = ["k"]
     form = "key~lambda"
-    if flt in ("where", "reject", "find", "find_index", "has"):
-        left = draw(hashes(st.sampled_from(MIXED)))
-        if draw(st.booleans()):
+    if flt in SELECTORS:
+        left = g.hashes(G.mixed)
+        if g.p(0.5):
             form = "keyval~lambdaeq"
-            v = draw(select_value)
+            v = g.one(SELECT_VALUES)
             args.append("a" if v is None else v)
     elif flt == "sum":
-        left = draw(hashes(st.one_of(small_ints, small_decs, dec_floats, st.none(), big_ints)))
-    elif flt == "sort":
-        left = draw(hashes(t_key)) if draw(st.booleans()) else draw(hashes(sortable_nums, missing=False))
-    elif flt == "sort_natural":
-        left = draw(hashes(st.one_of(t_key, st.integers(0, 1200))))
-    elif flt == "sort_numeric":
-        left = draw(hashes(st.one_of(VERSIONISH, st.integers(-20, 120))))
+        left = g.hashes(_summand)
+    elif flt.startswith("sort"):
+        values, missing = _sort_values(g, flt)
+        left = g.hashes(values, missing=missing)
     else:
-        left = draw(hashes(st.sampled_from(MIXED)))
+        left = g.hashes(G.mixed)
     return case("agree", flt, form, left, args)
 
 
-@st.composite
-def g_map(draw: Any) -> dict[str, Any]:
-    form = draw(st.sampled_from(["key", "lambda"]))
-    item = st.fixed_dictionaries({}, optional={"k": st.one_of(st.sampled_from(MIXED), ints, t_small), "t": st.just("x")})
-    return case("map", "map", form, draw(nested(item)), ["k"])
+def g_map(g: G) -> dict[str, Any]:
+    def item(h: G) -> Any:
+        it: dict[str, Any] = {}
+        if h.p(0.75):
+            it["k"] = h.scalar()
+        if h.p(0.3):
+            it["t"] = "x"
+        return it
+    return case("map", "map", g.one(("key", "lambda")), g.nested(item), ["k"])
 
 
-summand = st.one_of(small_ints, small_ints, big_ints, small_decs, dec_floats, int_strs, st.none())
-
-
-@st.composite
-def g_sum(draw: Any) -> dict[str, Any]:
-    form = draw(st.sampled_from(["nokey", "key", "lambda"]))
+def g_sum(g: G) -> dict[str, Any]:
+    form = g.one(("nokey", "key", "lambda"))
     if form == "nokey":
-        item = st.one_of(summand, summand, summand, st.fixed_dictionaries({"k": small_ints}))
-        return case("sum", "sum", form, draw(nested(item)), [])
-    return case("sum", "sum", form, draw(hashes(summand)), ["k"])
+        return case("sum", "sum", form, g.nested(lambda h: {"k": h.int(-9, 9)} if h.p(0.1) else _summand(h)), [])
+    return case("sum", "sum", form, g.hashes(_summand), ["k"])
 
 
-@st.composite
-def g_first_last(draw: Any) -> dict[str, Any]:
-    flt = draw(st.sampled_from(["first", "last"]))
-    form = draw(st.sampled_from(["tmpl", "direct"]))
-    left = draw(st.one_of(nested(any_item), nested(any_item), st.lists(any_item, max_size=6), t_small, ints,
-                          st.dictionaries(st.sampled_from(["a", "b", "c"]), scalar_mixed, max_size=3)))
-    return case("first-last", flt, form, left, [])
+def g_first_last(g: G) -> dict[str, Any]:
+    r = g.r.random()
+    left: Any
+    if r < 0.55:
+        left = g.nested(G.item)
+    elif r < 0.7:
+        left = g.lst(G.item, 6)
+    elif r < 0.8:
+        left = g.t_small()
+    elif r < 0.9:
+        left = g.ints()
+    else:
+        left = {k: g.scalar() for k in g.r.sample(["a", "b", "c"], g.int(0, 3))}
+    return case("first-last", g.one(("first", "last")), g.form2(), left, [])
 
 
-@st.composite
-def g_slice(draw: Any) -> dict[str, Any]:
-    form = draw(st.sampled_from(["tmpl", "direct"]))
-    left = draw(st.one_of(t_any, t_any, st.lists(any_item, max_size=7), nested(scalar_mixed)))
+def g_slice(g: G) -> dict[str, Any]:
+    r = g.r.random()
+    left: Any = g.t_any() if r < 0.5 else g.lst(G.item, 7) if r < 0.8 else g.nested(G.scalar)
     n = len(left)
-    start = draw(st.one_of(st.integers(-n, n + 2), st.integers(-n, n + 2), st.sampled_from([2**62, 2**63, 2**70])))
-    args: list[Any] = [start]
-    r = draw(st.integers(0, 5))
-    if r > 0:
-        args.append(draw(st.one_of(st.integers(0, n + 2), st.sampled_from([0, 1, 2**63, 2**70]))))
-    if r == 5:
+    args: list[Any] = [g.one([2**62, 2**63, 2**70]) if g.p(0.1) else g.int(-n, n + 2)]
+    r2 = g.int(0, 5)
+    if r2 > 0:
+        args.append(g.one([0, 1, 2**63, 2**70]) if g.p(0.15) else g.int(0, n + 2))
+    if r2 == 5:
         args = [str(a) for a in args]
-    return case("slice", "slice", form, left, args)
+    return case("slice", "slice", g.form2(), left, args)
 
 
-@st.composite
-def g_concat(draw: Any) -> dict[str, Any]:
-    form = draw(st.sampled_from(["tmpl", "direct"]))
-    left = draw(st.one_of(nested(any_item), nested(any_item), t_small))
-    right = draw(st.one_of(st.lists(any_item, max_size=5), nested(scalar_mixed)))
-    return case("concat", "concat", form, left, [right])
+def g_concat(g: G) -> dict[str, Any]:
+    left: Any = g.t_small() if g.p(0.2) else g.nested(G.item)
+    right = g.nested(G.scalar) if g.p(0.3) else g.lst(G.item, 5)
+    return case("concat", "concat", g.form2(), left, [right])
 
 
-SEP_ALPHA = ",;# -"
-WORD_ALPHA = "abcAé日\U0001f600<&"
-
-
-@st.composite
-def g_split_join(draw: Any) -> dict[str, Any]:
-    form = draw(st.sampled_from(["tmpl", "direct"]))
-    r = draw(st.integers(0, 9))
+def g_split_join(g: G) -> dict[str, Any]:
+    r = g.int(0, 9)
     if r < 5:
-        s = draw(st.one_of(st.text(alphabet=WORD_ALPHA + SEP_ALPHA, max_size=14), t_any))
-        if draw(st.booleans()) and s:
-            i = draw(st.integers(0, len(s) - 1))
-            j = draw(st.integers(i, min(len(s), i + 3)))
-            sep = s[i:j]
+        s = g.t_any() if g.p(0.3) else g.text(WORD_ALPHA + SEP_ALPHA, 14)
+        if s and g.p(0.5):
+            i = g.int(0, len(s) - 1)
+            sep = s[i:g.int(i, min(len(s), i + 3))]
         else:
-            sep = draw(st.text(alphabet=SEP_ALPHA, max_size=2))
-        return case("split-join", "split", form, s, [sep])
+            sep = g.text(SEP_ALPHA, 2)
+        return case("split-join", "split", g.form2(), s, [sep])
     if r < 8:
-        parts = draw(st.lists(st.text(alphabet=WORD_ALPHA, max_size=4), max_size=6))
-        sep = draw(st.text(alphabet=SEP_ALPHA, min_size=1, max_size=2))
-        return case("split-join", "join", form, parts, [sep])
-    parts = draw(st.lists(st.one_of(t_small, small_ints, big_ints), max_size=6))
-    args = [draw(t_small)] if draw(st.integers(0, 3)) else []
-    return case("split-join", "join", form, parts, args)
+        parts = g.lst(lambda h: h.text(WORD_ALPHA, 4), 6)
+        return case("split-join", "join", g.form2(), parts, [g.text(SEP_ALPHA, 2, 1)])
+    parts = g.lst(lambda h: h.t_small() if h.p(0.5) else h.ints(), 6)
+    return case("split-join", "join", g.form2(), parts, [g.t_small()] if g.p(0.75) else [])
 
 
 # ---- codec laws
 
-t_url = st.one_of(st.text(alphabet="ab Z09-._~+%/?#[]@!$&'()*,;=:é日\U0001f600\n", max_size=12), t_uni)
-t_html = st.one_of(st.text(alphabet="ab<>&'\";#xamplt gquo0123é", max_size=14), t_uni,
-                   st.lists(st.sampled_from(["&amp;", "&lt;", "&gt;", "&#39;", "&quot;", "&", "<", ">", "'", '"', "a", "&amp;amp;",
-                                             " ", "&nbsp;", "&#x27;", "é"]), max_size=6).map("".join))
+
+def _t_url(g: G) -> str:
+    return g.utext() if g.p(0.35) else g.text("ab Z09-._~+%/?#[]@!$&'()*,;=:é日\U0001f600\n", 12)
 
 
-@st.composite
-def g_url(draw: Any) -> dict[str, Any]:
-    form = draw(st.sampled_from(["tmpl", "direct"]))
-    if draw(st.integers(0, 2)):
-        return case("url", "url_encode", form, draw(t_url), [])
-    return case("url", "url_decode", form, draw(t_url), [draw(st.integers(0, 7))])
+def g_url(g: G) -> dict[str, Any]:
+    if g.p(0.6):
+        return case("url", "url_encode", g.form2(), _t_url(g), [])
+    return case("url", "url_decode", g.form2(), _t_url(g), [g.int(0, 7)])
 
 
-@st.composite
-def g_b64(draw: Any) -> dict[str, Any]:
-    form = draw(st.sampled_from(["tmpl", "direct"]))
-    flt = draw(st.sampled_from(["base64_encode", "base64_url_safe_encode"]))
-    s = draw(st.one_of(t_uni, st.text(max_size=30), st.text(alphabet="?>~ÿ\U0001f600a", max_size=9)))
-    return case("b64", flt, form, s, [])
+def g_b64(g: G) -> dict[str, Any]:
+    r = g.r.random()
+    s = g.utext(30) if r < 0.6 else g.text("?>~ÿ\U0001f600a", 9) if r < 0.8 else g.utext(60, min(g.size, 3))
+    return case("b64", g.one(("base64_encode", "base64_url_safe_encode")), g.form2(), s, [])
 
 
-@st.composite
-def g_escape(draw: Any) -> dict[str, Any]:
-    form = draw(st.sampled_from(["tmpl", "direct"]))
-    return case("escape", draw(st.sampled_from(["escape", "escape_once"])), form, draw(t_html), [])
+def g_escape(g: G) -> dict[str, Any]:
+    r = g.r.random()
+    s = g.text("ab<>&'\";#xamplt gquo0123é", 14) if r < 0.4 else g.utext() if r < 0.6 else "".join(
+        g.one(ENTITIES) for _ in range(g.n(6)))
+    return case("escape", g.one(("escape", "escape_once")), g.form2(), s, [])
 
 
 # ---- string definitions
 
-WS = st.text(alphabet=" \t\r\n", max_size=3)
-NONSPACE = st.characters(exclude_categories=["Zs", "Zl", "Zp", "Cc", "Cs"])
-word = st.one_of(st.text(alphabet="abAé日.", min_size=1, max_size=4), st.text(alphabet=NONSPACE, min_size=1, max_size=4))
 
-
-@st.composite
-def g_case_strip(draw: Any) -> dict[str, Any]:
-    form = draw(st.sampled_from(["tmpl", "direct"]))
-    flt = draw(st.sampled_from(["upcase", "downcase", "capitalize", "strip", "lstrip", "rstrip"]))
+def g_case_strip(g: G) -> dict[str, Any]:
+    flt = g.one(("upcase", "downcase", "capitalize", "strip", "lstrip", "rstrip"))
     if flt in ("strip", "lstrip", "rstrip"):
-        s = draw(WS) + draw(t_any) + draw(WS)
+        s = g.text(ASCII_WS4, 3) + g.t_any() + g.text(ASCII_WS4, 3)
     else:
-        s = draw(st.one_of(t_any, st.text(alphabet="abcXYZ éÉßσΣǆİı 1", max_size=8)))
-    return case("str-def", flt, form, s, [])
+        s = g.t_any() if g.p(0.5) else g.text("abcXYZ éÉßσΣǆİı 1", 8)
+    return case("str-def", flt, g.form2(), s, [])
 
 
-@st.composite
-def g_affix(draw: Any) -> dict[str, Any]:
-    form = draw(st.sampled_from(["tmpl", "direct"]))
-    flt = draw(st.sampled_from(["append", "prepend"]))
-    arg = draw(st.one_of(t_any, t_any, t_any, ints, dec_floats, st.sampled_from([True, False, None]),
-                         st.lists(st.one_of(small_ints, t_small), max_size=3)))
-    return case("str-def", flt, form, draw(t_any), [arg])
+def g_affix(g: G) -> dict[str, Any]:
+    r = g.r.random()
+    arg: Any
+    if r < 0.6:
+        arg = g.t_any()
+    elif r < 0.72:
+        arg = g.ints()
+    elif r < 0.82:
+        arg = g.dec_float()
+    elif r < 0.92:
+        arg = g.one([True, False, None])
+    else:
+        arg = g.lst(lambda h: h.int(-30, 30) if h.p(0.5) else h.t_small(), 3)
+    return case("str-def", g.one(("append", "prepend")), g.form2(), g.t_any(), [arg])
 
 
-@st.composite
-def g_replace(draw: Any) -> dict[str, Any]:
-    form = draw(st.sampled_from(["tmpl", "direct"]))
-    flt = draw(st.sampled_from(["replace", "replace_first", "replace_last", "remove", "remove_first", "remove_last"]))
-    s = draw(st.one_of(st.text(alphabet="ab ,é", max_size=12), st.text(alphabet="ab ,é", max_size=12), t_any))
-    r = draw(st.integers(0, 9))
+def g_replace(g: G) -> dict[str, Any]:
+    flt = g.one(("replace", "replace_first", "replace_last", "remove", "remove_first", "remove_last"))
+    s = g.t_any() if g.p(0.3) else g.text("ab ,é", 12)
+    r = g.int(0, 9)
     if r < 6 and s:
-        i = draw(st.integers(0, len(s) - 1))
-        needle = s[i:draw(st.integers(i + 1, min(len(s), i + 3)))]
+        i = g.int(0, len(s) - 1)
+        needle = s[i:g.int(i + 1, min(len(s), i + 3))]
     elif r == 9:
         needle = ""
     else:
-        needle = draw(st.text(alphabet="ab ,é", min_size=1, max_size=2))
+        needle = g.text("ab ,é", 2, 1)
     args: list[Any] = [needle]
-    if flt.startswith("replace"):
-        if flt == "replace_last" or draw(st.integers(0, 4)):
-            args.append(draw(st.one_of(st.text(alphabet="ab#", max_size=3), t_small)))
-    return case("str-def", flt, form, s, args)
+    if flt.startswith("replace") and (flt == "replace_last" or g.p(0.8)):
+        args.append(g.text("ab#", 3) if g.p(0.6) else g.t_small())
+    return case("str-def", flt, g.form2(), s, args)
 
 
-ENDS = st.one_of(st.sampled_from(["...", "", "--", ".", ", and so on"]), t_small)
+def _end(g: G) -> str:
+    return g.one(ENDS) if g.p(0.7) else g.t_small()
 
 
-@st.composite
-def g_truncate(draw: Any) -> dict[str, Any]:
-    form = draw(st.sampled_from(["tmpl", "direct"]))
-    if draw(st.booleans()):
-        s = draw(st.one_of(st.text(max_size=24), st.text(alphabet="ab é日\U0001f600", max_size=24)))
-        args: list[Any] = []
-        r = draw(st.integers(0, 9))
+def g_truncate(g: G) -> dict[str, Any]:
+    args: list[Any] = []
+    r = g.int(0, 9)
+    if g.p(0.5):
+        s = g.utext(24) if g.p(0.5) else g.text("ab é日\U0001f600", 24)
         if r > 0:
-            args.append(draw(st.one_of(st.integers(0, 26), st.integers(max(0, len(s) - 2), len(s) + 2))))
+            args.append(g.int(0, 26) if g.p(0.5) else g.int(max(0, len(s) - 2), len(s) + 2))
             if r > 4:
-                args.append(draw(ENDS))
-        elif draw(st.booleans()):
-            s = s * 3
-        return case("str-def", "truncate", form, s, args)
-    words = draw(st.lists(word, max_size=7))
-    if draw(st.booleans()):
+                args.append(_end(g))
+        elif g.p(0.5):
+            s = (s * 8)[:60]
+        return case("str-def", "truncate", g.form2(), s, args)
+    words = g.lst(lambda h: h.text("abAé日.", 4, 1) if h.p(0.6) else _nonspace(h), 7)
+    if g.p(0.5):
         s = " ".join(words)
     else:
-        s = draw(WS)
+        s = g.text(ASCII_WS4, 3)
         for w in words:
-            s += w + draw(st.text(alphabet=" \t\r\n", min_size=1, max_size=3))
-        if draw(st.booleans()):
-            s = s.rstrip(" \t\r\n")
-    args = []
-    r = draw(st.integers(0, 9))
+            s += w + g.text(ASCII_WS4, 3, 1)
+        if g.p(0.5):
+            s = s.rstrip(ASCII_WS4)
     if r > 0:
-        args.append(draw(st.one_of(st.integers(-1, 9), st.integers(max(0, len(words) - 1), len(words) + 1),
-                                   st.sampled_from([2**31 - 1, 2**40]))))
+        rr = g.r.random()
+        args.append(g.int(-1, 9) if rr < 0.45 else g.int(max(0, len(words) - 1), len(words) + 1) if rr < 0.9
+                    else g.one([2**31 - 1, 2**40]))
         if r > 4:
-            args.append(draw(ENDS))
-    return case("str-def", "truncatewords", form, s, args)
+            args.append(_end(g))
+    elif g.p(0.5):
+        s = " ".join((words or ["w"]) * 6)
+    return case("str-def", "truncatewords", g.form2(), s, args)
+
+
+def _nonspace(g: G) -> str:
+    out = ""
+    while len(out) < g.int(1, 4):
+        ch = g.uchar()
+        if not ch.isspace() and unicodedata.category(ch) not in ("Zs", "Zl", "Zp", "Cc"):
+            out += ch
+    return out
 
 
 # ---- arithmetic
 
-@st.composite
-def g_int_arith(draw: Any) -> dict[str, Any]:
-    form = draw(st.sampled_from(["tmpl", "direct"]))
-    law = draw(st.sampled_from(["int-arith", "int-arith", "plus-minus", "divmod"]))
-    a, b = draw(int_like), draw(int_like)
-    if law == "int-arith":
-        flt = draw(st.sampled_from(["plus", "minus", "times", "divided_by", "modulo"]))
-    elif law == "plus-minus":
-        flt = "plus"
-    else:
-        flt = "divided_by"
+
+def g_int_arith(g: G) -> dict[str, Any]:
+    law = g.one(("int-arith", "int-arith", "plus-minus", "divmod"))
+    a, b = g.int_like(), g.int_like()
+    flt = g.one(("plus", "minus", "times", "divided_by", "modulo")) if law == "int-arith" else (
+        "plus" if law == "plus-minus" else "divided_by")
     if flt in ("divided_by", "modulo") and int(b) == 0:
         b = 7
-    return case(law, flt, form, a, [b])
+    return case(law, flt, g.form2(), a, [b])
 
 
-@st.composite
-def g_dec_arith(draw: Any) -> dict[str, Any]:
-    form = draw(st.sampled_from(["tmpl", "direct"]))
-    flt = draw(st.sampled_from(["plus", "minus", "times", "divided_by"]))
-    a, b = draw(num_any), draw(float_like)
-    if draw(st.booleans()):
+def g_dec_arith(g: G) -> dict[str, Any]:
+    a, b = g.num_any(), g.float_like()
+    if g.p(0.5):
         a, b = b, a
-    return case("dec-arith", flt, form, a, [b])
+    return case("dec-arith", g.one(("plus", "minus", "times", "divided_by")), g.form2(), a, [b])
 
 
-pos_num = st.one_of(st.integers(1, 10**6), st.integers(1, 2**70), small_decs, dec_floats, st.floats(1e-6, 1e9))
+def _pos_num(g: G) -> Any:
+    r = g.r.random()
+    if r < 0.2:
+        v: Any = g.int(1, 10**6)
+    elif r < 0.3:
+        v = g.int(1, 2**70)
+    elif r < 0.55:
+        v = g.spell(True)
+    elif r < 0.8:
+        v = g.dec_float()
+    else:
+        v = 10 ** g.r.uniform(-6, 9)
+    return v.lstrip("-") if isinstance(v, str) else abs(v)
 
 
-@st.composite
-def g_float_mod(draw: Any) -> dict[str, Any]:
-    form = draw(st.sampled_from(["tmpl", "direct"]))
-    pos = lambda v: v.lstrip("-") if isinstance(v, str) else abs(v)  # noqa: E731
-    a, b = pos(draw(pos_num)), pos(draw(pos_num))
-    if draw(st.booleans()):
+def g_float_mod(g: G) -> dict[str, Any]:
+    a, b = _pos_num(g), _pos_num(g)
+    if g.p(0.5):
         neg = lambda v: ("-" + v) if isinstance(v, str) else -v  # noqa: E731
         a, b = neg(a), neg(b)
-    return case("float-mod", "modulo", form, a, [b])
+    return case("float-mod", "modulo", g.form2(), a, [b])
 
 
-@st.composite
-def g_unary(draw: Any) -> dict[str, Any]:
-    form = draw(st.sampled_from(["tmpl", "direct"]))
-    flt = draw(st.sampled_from(["abs", "ceil", "floor"]))
-    return case("unary", flt, form, draw(num_any), [])
+def g_unary(g: G) -> dict[str, Any]:
+    return case("unary", g.one(("abs", "ceil", "floor")), g.form2(), g.num_any(), [])
 
 
-@st.composite
-def g_minmax(draw: Any) -> dict[str, Any]:
-    form = draw(st.sampled_from(["tmpl", "direct"]))
-    a = draw(num_any)
-    b = draw(st.one_of(num_any, st.just(a)))
-    return case("minmax", draw(st.sampled_from(["at_least", "at_most"])), form, a, [b])
+def g_minmax(g: G) -> dict[str, Any]:
+    a = g.num_any()
+    return case("minmax", g.one(("at_least", "at_most")), g.form2(), a, [a if g.p(0.1) else g.num_any()])
 
 
-@st.composite
-def g_round(draw: Any) -> dict[str, Any]:
-    form = draw(st.sampled_from(["tmpl", "direct"]))
-    left = draw(st.one_of(dec_floats, dec_floats, dec_strs, mid_floats, int_like))
-    r = draw(st.integers(0, 9))
+def g_round(g: G) -> dict[str, Any]:
+    r = g.r.random()
+    left = g.dec_float() if r < 0.4 else g.spell() if r < 0.6 else g.mid_float() if r < 0.8 else g.int_like()
+    k = g.int(0, 9)
     args: list[Any] = []
-    if r > 2:
-        d = draw(st.integers(0, 8))
-        args.append(str(d) if r == 9 else d)
-    return case("round", "round", form, left, args)
+    if k > 2:
+        d = g.int(0, 8)
+        args.append(str(d) if k == 9 else d)
+    return case("round", "round", g.form2(), left, args)
 
 
 GENERATORS = [
@@ -605,15 +705,24 @@ GENERATORS = [
     g_unary, g_minmax, g_round,
 ]
 
+
+SIZES = (0, 1, 2, 2, 3, 3, 4, 4, 5, 5, 6, 6, 7, 8, 8, 8)
+
+
+def build(raw: bytes) -> dict[str, Any]:
+    """8 Hypothesis-drawn bytes -> case: size, generator, PRNG seed (in shrink order)."""
+    return GENERATORS[raw[1] % len(GENERATORS)](G(int.from_bytes(raw[2:], "big"), SIZES[raw[0] % 16]))
+
+
+SELECTORS = ("where", "reject", "find", "find_index", "has")
+
+
 # --------------------------------------------------------------------------- known-defect shapes
 
 FLAGS = (
     "truncate-short-num", "truncate-len-eq-num", "truncatewords-fewer-ws", "replace-last-at-start",
     "compact-key-missing", "bool-int-eq", "where-zero-falsy", "append-nonstring-arg", "reverse-string",
 )
-SELECTORS = ("where", "reject", "find", "find_index", "has")
-
-
 def _zero_num(v: Any) -> bool:
     return M.is_num(v) and v == 0
 
@@ -706,7 +815,7 @@ class C19(Prop):
         return 240 if tier == "quick" else 3000
 
     def strategy(self, tier: str, disabled: frozenset[str]):
-        return st.one_of(*[g() for g in GENERATORS])
+        return st.binary(min_size=8, max_size=8).map(build)
 
     def enumerate(self, tier: str, disabled: frozenset[str]):
         return ()
